@@ -296,7 +296,7 @@ def server_calls(u):
          ensures=[Clause('V0_ready_exactly_when_the_wrapped_service_is_and_no_request_is_made_up', ready + ' && final(self).inner.log() == old(self).inner.log()', ['C02'])])
     u.fn(SV, 'call', within=W, header=hdr, close=True, display='Svc::call', props=['C02', 'C08', 'C12'],
          sig_edits=[lambda t: t.sub_code('R9', r'Self::Future', 'SvcFuture<S::Future>')] + gen,
-         body_edits=span + [lambda t: t.sub_code('R17', r'\btrace_interceptor\(&bodyless_request\)', 'trace_interceptor.verif_call(&bodyless_request)')],
+         body_edits=span + [lambda t: t.sub_code('R17', r'\btrace_interceptor\((&\w+)\)', r'trace_interceptor.verif_call(\1)')],
          ensures=[Clause('V1_the_wrapped_service_is_called_once_with_exactly_the_request_that_came_in_traced_or_not',
                          'final(self).inner.log() == old(self).inner.log().push(req)', ['C02', 'C08', 'C12']),
                   Clause('V2_and_its_future_is_the_one_driven', 'r.inner == old(self).inner.fut_of(req)', ['C02'])])
